@@ -91,6 +91,8 @@ class Run:
         unit, inst, check, unit_c, extra = job
         d = os.path.dirname(unit_c)
         try:
+            if check.engine == 'N':
+                return (unit, inst, check, self.run_native(unit, inst, check), None)
             if check.engine in ('ZS', 'ZD'):
                 # integer-only bodies go to engine Z; bodies with floating point (which Z rejects as
                 # unsupported) fall back to the bit-precise engine on the same text and the same clauses
@@ -119,6 +121,35 @@ class Run:
             return (unit, inst, check, None, str(e))
         except Exception:
             return (unit, inst, check, None, 'internal error: ' + traceback.format_exc()[-1500:])
+
+    def run_native(self, unit, inst, check):
+        """Engine N: bounded stand-in - a native exhaustive loop over a stated window calling the REAL C++ function
+        (DESIGN 3.5 engine B).  Never counted as proved; a failing case is a genuine failing input."""
+        kf = [k for k in load_known() if k.get('status') == 'open' and k['property'] == self.prop and k['unit'] == unit.name and k['check'] == check.name]
+        src = ''.join('#define %s 1\n' % k['carve_define'] for k in kf) + check.native
+        exe = build_native(unit, inst, self.wd, src, 'native_' + check.name)
+        t0 = time.time()
+        rc, out, err, secs = sh([exe, 'tier=' + self.tier, 'seed=%d' % self.seed], timeout=check.timeout or 900, mem_kb=None)
+        m = re.search(r'NATIVE cases=(\d+) window=(.*)', out)
+        if not m:
+            raise Undecided('native bounded check %s produced no summary: %s' % (check.name, (out + err)[-500:]))
+        obls = []
+        for cm in re.finditer(r'^CLAUSE (\S+) (PASS|FAIL) (\d+) (.*)$', out, re.M):
+            o = engine_s.Obligation('%s.%s' % (check.name, cm.group(1)), 'SUCCESS' if cm.group(2) == 'PASS' else 'FAILURE',
+                                    cm.group(4), 'bounded', '', secs, 'native exhaustive loop over the real C++ function, window ' + m.group(2), check.name)
+            o.file = ''
+            o.model = {}
+            obls.append(o)
+        fails = re.findall(r'^FAILCASE (.*)$', out, re.M)
+        for o in obls:
+            if o.status == 'FAILURE':
+                o.desc += ' :: ' + '; '.join(fails[:3])
+        for km in re.finditer(r'^KNOWNCASE (\S+) (.*)$', out, re.M):
+            k = next((x for x in kf if x['id'] == km.group(1)), None)
+            if k:
+                self.known_lines.append('KNOWN-FINDING: property=%s %s [%s; witness %s]' % (self.prop, k['what'], k['id'], km.group(2)))
+        return dict(obligations=obls, log=out[-2000:], seconds=secs, cmd='g++ native_%s.cpp (real headers) ; ./native_%s tier=%s' % (check.name, check.name, self.tier),
+                    vacuity=[], native_cases=int(m.group(1)), native_fails=fails)
 
     # ------------------------------------------------------------------ failure handling
     def native_replay(self, unit, inst, check, inputs, obl):
@@ -154,8 +185,10 @@ class Run:
         os.makedirs(rdir, exist_ok=True)
         rpath = os.path.join(rdir, ident + '.json')
         reproduced, rtxt = (None, 'no inputs recovered from the counterexample')
+        if check.engine == 'N':
+            reproduced, rtxt = True, 'native bounded check on the real code: ' + '; '.join(res.get('native_fails', [])[:3])
         try:
-            if inputs or not check.inputs:
+            if check.engine != 'N' and (inputs or not check.inputs):
                 reproduced, rtxt = self.native_replay(unit, inst, check, inputs, first.name)
         except Undecided as e:
             reproduced, rtxt = None, str(e)
@@ -297,7 +330,7 @@ class Run:
         for (u, inst, c, res, tag) in self.results:
             for o in res['obligations']:
                 rec = ('%s.%s.%s:%s' % (u.name, inst[0], c.name, o.name), o)
-                if c.engine == 'B':
+                if c.engine in ('B', 'N'):
                     bounded.append(rec)
                 else:
                     obl.append(rec)
@@ -398,7 +431,7 @@ def cmd_check(prop, tier, only_unit=None, only_inst=None, verbose=False):
                 print('UNDECIDED property=%s reason=... and %d more undecided check runs' % (prop, len(run.undecided) - 12))
             return 2
         if cov['obligations'] == 0 or cov['obligations'] != cov['discharged'] + sum(
-                1 for (u, i, c, res, t) in run.results if c.engine != 'B' for o in res['obligations'] if o.status != 'SUCCESS'):
+                1 for (u, i, c, res, t) in run.results if c.engine not in ('B', 'N') for o in res['obligations'] if o.status != 'SUCCESS'):
             print('UNDECIDED property=%s reason=obligation accounting' % prop)
             return 2
         return 0
